@@ -287,6 +287,22 @@ def validate_cells(rep, cells):
     return [out[i + 1] for i in range(len(cells))]
 
 
+def binding_selftest(rep, cells):
+    """a recorded cell with one field corrupted must be rejected by the trace spec (else the binding does not bind)"""
+    import copy
+    probe = next((c for c in cells if c['inv']['kind'] == 'dt' and c['inv']['aware']), None)
+    if probe is None:
+        return
+    c1 = copy.deepcopy(probe)
+    c1['outv']['off'] += 3600                 # the resumed value is an hour off
+    c2 = copy.deepcopy(probe)
+    c2['wr']['txt'][3] = c2['wr']['txt'][3] ^ 1    # one digit of the written year differs
+    v1, v2 = validate_cells(rep, [c1, c2])
+    if v1['same'] or v2['enc']:
+        raise tlc.MachineryError('EjsonTrace accepted a corrupted cell (same=%s enc=%s): the trace spec does not bind' % (v1['same'], v2['enc']))
+    rep.notes['trace_binding_selftest'] = 'a cell whose resumed offset is changed fails out=in; a cell whose written text is changed fails bytes=Encode(in)'
+
+
 def run():
     rep = Report(PROP)
     t = rep.tier
@@ -318,6 +334,7 @@ def run():
             rep.violation(dict(table=ti), dict(table=ti, why=p), category='values/structure')
         cells += out['cells']
     verd = validate_cells(rep, cells)
+    binding_selftest(rep, cells)
     for c, v in zip(cells, verd):
         rep.count(1, traces=1)
         rep.mark_distinct(dict(i=c['inv'], w=c['wr']))
